@@ -279,14 +279,14 @@ class History:
             kw["cache_in"] = os.path.join(self.tmp, f"c{f}.pkl")
 
         def mk():
-            self.execs[x] = (self.inst[i].executor(**kw), dict(self.sel_kwargs(r, xx, t, dep)))
+            self.execs[x] = (self.inst[i].executor(**kw), dict(self.sel_kwargs(r, xx, t, dep)), f)
         self.execs.pop(x, None)
         self.observe("exnew", i, mk, extra={"x": x, "r": r, "xx": xx, "t": t, "dep": dep, "f": f})
 
     def op_exrun(self, x, args, f=0):
         if x not in self.execs:
             return
-        exe, sel = self.execs[x]
+        exe, sel, f = self.execs[x]      # the cache file is a property of the executor
         i = [k for k, d in self.inst.items() if d is exe.dag][0]
         a = self.trim(args)
         ev, ret = self.observe("cacherun" if f else "exrun", i, lambda: self.run(exe, *a), args, extra={"x": x, "f": f})
@@ -373,8 +373,9 @@ def alphabet(D, rng):
     ins, outs = D["compose"]
     A += [("compose", 1, ins, outs, [1] * len(ins)), ("config", 1, {reg[0]: 5, reg[-1]: -2})]
     # caching
-    A += [("exnew", 1, 3, -1, -1, -1, mask([leaf]), 1), ("exrun", 3, full, 1),
+    A += [("exnew", 1, 3, -1, -1, -1, mask([leaf]), 1), ("exrun", 3, full, 1), ("exrun", 3, other, 1),
           ("exnew", 1, 4, -1, -1, -1, -1, 2), ("exrun", 4, other, 2),
+          ("exnew", 1, 4, -1, -1, mask([mid]), -1, 1), ("exrun", 4, full, 1),    # the same file rewritten with other content
           ("restart", 1, 1, -1, -1, mask([leaf])), ("restart", 1, 2), ("restart", 1, 2, -1, -1, mask([mid])),
           ("restart", 1, 1, -1, -1, -1, mask([leaf]))]
     return A
@@ -425,6 +426,36 @@ def histories(D, rng, length, count=None):
             else:
                 w.append(op)
         out.append(w)
+    return out
+
+
+def scenarios(D, rng):
+    """Structured histories that random words rarely produce: a cache file written, used, rewritten with
+    other content and used again; executors run twice; setup between caching and restart."""
+    A = alphabet(D, rng)
+    news = {}
+    for op in A:
+        if op[0] == "exnew" and len(op) > 7 and op[7]:
+            news.setdefault(op[7], []).append(op)
+    runs = {}
+    for op in A:
+        if op[0] == "exrun":
+            runs.setdefault(op[1], []).append(op)
+    restarts = {}
+    for op in A:
+        if op[0] == "restart":
+            restarts.setdefault(op[2], []).append(op)
+    extra = [op for op in A if op[0] in ("call", "setup", "copy", "config")]
+    out = []
+    for f, writers in news.items():
+        ws = [[w, r] for w in writers for r in runs[w[2]] if r[2][0] != FAIL and FAIL not in r[2]]
+        for w1 in ws:
+            for w2 in ws:
+                for r1 in restarts.get(f, []):
+                    for r2 in restarts.get(f, []):
+                        out.append(w1 + [r1] + w2 + [r2])
+                        if rng.random() < 0.3:
+                            out.append(w1 + [rng.choice(extra), r1] + w2 + [rng.choice(extra), r2])
     return out
 
 
